@@ -285,6 +285,8 @@ def core_configs():
         C('t3heat3', P=3, problem='heat', nvars=[16, 8, 4], nlev=3, predict_type='pfasst_burnin', dt=0.05, Tend=0.3,
           nsweeps=[2, 1, 1]),
         C('t3alld', P=3, all_to_done=True),
+        C('t3jaccu', P=3, mssdc_jac=True, quad_type='GAUSS', do_coll_update=True, lambdas=[[-3.0, 1.0]], maxiter=3, restol=1e-8),
+        C('t3gscu', P=3, mssdc_jac=False, quad_type='GAUSS', do_coll_update=True, lambdas=[[-3.0, 1.0]], maxiter=3, restol=1e-8),
         C('t3adapt', P=3, adaptivity={'e_tol': 1e-5}, **ad),
         C('t4adaptlin', P=4, adaptivity={'e_tol': 1e-5, 'embedded_error_flavor': 'linearized'}, **ad),
         C('t3vdp', P=3, problem='vdp', mu=2.0, dt=0.05, Tend=0.4, maxiter=6, adaptivity={'e_tol': 1e-6}, restol=-1),
@@ -293,6 +295,8 @@ def core_configs():
           spread={'spread_from_first_restarted': False}, Tend=2.0),
         C('t3artfirst', P=3, art_restarts=[0.25, 0.625], restarting={'max_restarts': 2, 'restart_from_first_step': True},
           Tend=1.5),
+        C('t3rfs', P=3, lambdas=[[-8.0, 1.0]], dt=0.25, Tend=1.5, restol=1e-6, maxiter=30,
+          restarting={'max_restarts': 2, 'restart_from_first_step': True, 'crash_after_max_restarts': False}),
         C('t3crash', P=3, art_restarts=[0.25, 0.25, 0.25], restarting={'max_restarts': 1, 'crash_after_max_restarts': True},
           Tend=1.0),
         C('n1', kind='node', M=1, QI='MIN', Tend=0.5),
@@ -405,6 +409,7 @@ def schedules_for(cfg, rng, tier):
         sch.append(['policy', 'rr', 0, 'reversed'])
     if n <= 3 and cfg.get('small'):
         sch.append(['enumdfs', 6 if tier == 'quick' else 9, 48 if tier == 'quick' else 512])
+        sch.append(['enumdev', 24 if tier == 'quick' else 400])
     return sch
 
 
@@ -596,8 +601,12 @@ def run(ck):
             else:
                 bad = compare(cfg, ser, m, stats)
                 for field, detail in bad[:6]:
+                    if field == 'mpi-run-failed' and any(e and e[0] == 'SimError' for e in m['errors']):
+                        continue    # reported precisely below (MPI misuse detected by the simulator)
                     match = {'kind': 'deadlock' if field == 'deadlock' else 'serial-vs-mpi', 'field': field,
-                             'cfg_kind': cfg['kind'], 'feature': feature_of(cfg)}
+                             'cfg_kind': cfg['kind'], 'feature': feature_of(cfg),
+                             'jacobi': bool(cfg.get('mssdc_jac', True)) and cfg.get('nlev', 1) == 1,
+                             'coll_update': bool(cfg.get('do_coll_update'))}
                     if field == 'restarts_in_a_row':
                         match = {'kind': 'serial-vs-mpi', 'field': field, 'cause': 'restart_counter_aliasing'}
                     viol('MPI variant differs from the serial emulation: %s' % field,
@@ -609,8 +618,13 @@ def run(ck):
             # --- simulator monitors
             for e in m['errors']:
                 if e and e[0] == 'SimError':
-                    viol('MPI misuse detected by the simulator: %s' % e[1][:200], {'cfg': cfg, 'schedule': spec, 'error': e},
-                         {'kind': 'mpi-misuse', 'what': e[1].split(':')[0][:60]})
+                    import re
+                    mm = re.search(r'\[calls: ([^\]]*)\] \[sites: ([^\]]*)\]', e[1])
+                    if mm:
+                        match = {'kind': 'collective-mismatch', 'calls': mm.group(1), 'sites': mm.group(2)}
+                    else:
+                        match = {'kind': 'mpi-misuse', 'what': re.sub(r'[0-9]+', 'N', e[1].split(':')[0])[:60]}
+                    viol('MPI misuse detected by the simulator: %s' % e[1][:300], {'cfg': cfg, 'schedule': spec, 'error': e}, match)
             for f in m['findings']:
                 k = f['kind']
                 if k in FINDING_VIOLATIONS:
